@@ -174,11 +174,21 @@ def _relabel():
                 new.append(fresh_labels(rng, len(labs), labs))
                 if len(new[-1]) != len(labs):
                     return None
-            if how == "axes_assign" and new and rng.random() < 0.15:
+            st = {"a": a_id, "how": how, "new": new}
+            if new and rng.random() < 0.15:
                 # a deliberately ill-fitting request: must be refused (or at least leave a well-formed array)
                 k = rng.randrange(len(new))
-                new[k] = new[k] + [absent_label(rng, new[k])] if rng.random() < 0.5 or len(new[k]) < 2 else new[k][:-1]
-            return {"a": a_id, "how": how, "new": new}
+                if rng.random() < 0.3:
+                    # the wrong number of axes: one too few, or one too many
+                    st["illfit"] = "count"
+                    if rng.random() < 0.5:
+                        new.pop()
+                    else:
+                        new.append(list(new[k]))
+                else:
+                    st["illfit"] = "length"
+                    new[k] = new[k] + [absent_label(rng, new[k])] if rng.random() < 0.5 or len(new[k]) < 2 else new[k][:-1]
+            return st
         nm, ref = pick_dim(w, rng, a)
         labs = plain_labels(a.axes[nm])
         if labs is None or not labs:
@@ -203,24 +213,33 @@ def _relabel():
             st["new"] = fresh_labels(rng, len(labs), labs if rng.random() < 0.7 else None)
             if len(st["new"]) != len(labs):
                 return None
+            if rng.random() < 0.1:
+                # the wrong number of labels through any route: must be refused (or at least leave a well-formed array)
+                st["illfit"] = "length"
+                st["new"] = st["new"] + [absent_label(rng, st["new"])] if rng.random() < 0.5 or len(st["new"]) < 2 else st["new"][:-1]
         return st
 
     def run(w, s):
         from dimarray import Axis
         a = w.arr(s["a"])
         how = s["how"]
-        if how == "labels":
-            if len(s["new"]) != a.ndim:
+        if s.get("illfit"):
+            w.count("c05:illfit_relabel_" + s["illfit"])
+        if how in ("labels", "axes_assign"):
+            if s.get("illfit") == "count":
+                if len(s["new"]) not in (a.ndim - 1, a.ndim + 1):
+                    raise Skip("rank")
+            elif len(s["new"]) != a.ndim:
                 raise Skip("rank")
+            names = list(a.dims) + ["w9"]
+        if how == "labels":
             a.labels = tuple(V.label_array(l) for l in s["new"])
             return None
         if how == "axes_assign":
-            if len(s["new"]) != a.ndim:
-                raise Skip("rank")
             if len(s["new"]) % 2:
-                a.axes = [Axis(V.label_array(l), d) for l, d in zip(s["new"], a.dims)]
+                a.axes = [Axis(V.label_array(l), d) for l, d in zip(s["new"], names)]
             else:
-                a.axes = [(d, V.label_array(l)) for l, d in zip(s["new"], a.dims)]
+                a.axes = [(d, V.label_array(l)) for l, d in zip(s["new"], names)]
             return None
         ax = a.axes[s["axis"]]
         if how == "item":
